@@ -354,7 +354,25 @@ func (x *gen) usesNode(ref string, gr *sg.Grouping, feats []string, allMods []*s
 				a.Kids = append(a.Kids, inner)
 			}
 		}
-		if len(a.Kids) == 1 && g.Chance(1, 3, "augwhen") {
+		// (with an inner uses only if the nodes at the top of that grouping have no when of their own and are no uses: a
+		// node with two inherited when statements has no single-module spelling)
+		plainInner := true
+		for _, k := range a.Kids[1:] {
+			if k.Kind != "uses" {
+				plainInner = false
+				continue
+			}
+			for _, v := range x.vis {
+				if v.ref == k.Name {
+					for _, gk := range v.gr.Kids {
+						if gk.When != "" || gk.Kind == "uses" {
+							plainInner = false
+						}
+					}
+				}
+			}
+		}
+		if (len(a.Kids) == 1 || plainInner) && g.Chance(1, 3, "augwhen") {
 			a.When = "../k = 'aug'"
 			a.Kids[0].When = ""
 		}
@@ -480,6 +498,21 @@ func genCase(t *rapid.T) Case {
 			if g.Chance(1, 3, "gdesc") {
 				gr.Desc = "grouping " + gr.Name
 			}
+			// a typedef or a grouping defined in the body with the name of a node of the body (other name spaces): the
+			// paths of refine and augment still mean the node
+			if g.Chance(1, 4, "shadowdefs") {
+				for _, k := range gr.Kids {
+					if k.Kind == "uses" || k.Kind == "case" {
+						continue
+					}
+					if g.Bool("shadowkind") {
+						gr.Typedefs = append(gr.Typedefs, &sg.Typedef{Name: k.Name, Type: &sg.TypeSpec{Name: "string"}})
+					} else {
+						gr.Groupings = append(gr.Groupings, &sg.Grouping{Name: k.Name, Kids: []*sg.Node{{Kind: "leaf", Name: "unused", Type: &sg.TypeSpec{Name: "string"}}}})
+					}
+					break
+				}
+			}
 			if g.Chance(1, 5, "gref") {
 				gr.Ref = "grouping reference " + gr.Name
 			}
@@ -592,8 +625,23 @@ func genCase(t *rapid.T) Case {
 				saved, savedVis := x.idb, x.vis
 				x.idb, x.vis = "", nil
 				top.Kids = append(top.Kids, x.usesNode(v.ref, v.gr, nil, mods))
-				x.idb, x.vis = saved, savedVis
+				// a grouping defined inside the container and used from a statement below it
+				if g.Chance(1, 2, "subscoped") {
+					sgn := fmt.Sprintf("sg%d", i)
+					top.Groupings = append(top.Groupings, &sg.Grouping{Name: sgn, Kids: []*sg.Node{x.leaf(x.id("sgl"))}})
+					inner := &sg.Node{Kind: "container", Name: x.id("sgc"), Kids: []*sg.Node{{Kind: "uses", Name: sgn}}}
+					if g.Bool("subscopeddirect") {
+						inner = &sg.Node{Kind: "uses", Name: sgn}
+					}
+					top.Kids = append(top.Kids, inner)
+				}
 				sm.Nodes = append(sm.Nodes, top)
+				// a uses at the top of the submodule (with its refines and augments, the when, if-feature and status they hand on)
+				if g.Chance(1, 2, "subtopuses") {
+					v2 := vis[g.Pick(len(vis), "subtopusesgr")]
+					sm.Nodes = append(sm.Nodes, x.usesNode(v2.ref, v2.gr, nil, mods))
+				}
+				x.idb, x.vis = saved, savedVis
 			}
 			// augments written in the submodule: of the module's own tree through the belongs-to prefix, of the tree of a
 			// module that both import, and of the tree of a module that only the submodule imports
